@@ -3,7 +3,7 @@ import MythVerif.Proofs.WsQueueTsoTac
 namespace MythVerif.WsqTso
 open MythVerif.Wsq
 
-set_option maxHeartbeats 1000000 in
+set_option maxHeartbeats 4000000 in
 theorem t_wq0 (s s' : St) (p : Pid) : Inv s → s.tpc p = .wq0 → stepT s p = some s' → Inv s' := by
   intro h heq hs
   have hb := h.tbufE p (by simp [heq, mayBuf])
@@ -13,7 +13,7 @@ theorem t_wq0 (s s' : St) (p : Pid) : Inv s → s.tpc p = .wq0 → stepT s p = s
   simp only [ownerLocked, carry, resetting, ownerFlight] at *
   tso_finish
 
-set_option maxHeartbeats 1000000 in
+set_option maxHeartbeats 4000000 in
 theorem t_wq1 (s s' : St) (p : Pid) (t) : Inv s → s.tpc p = .wq1 t → stepT s p = some s' → Inv s' := by
   intro h heq hs
   have hb := h.tbufE p (by simp [heq, mayBuf])
@@ -24,7 +24,7 @@ theorem t_wq1 (s s' : St) (p : Pid) (t) : Inv s → s.tpc p = .wq1 t → stepT s
   all_goals simp only [ownerLocked, carry, resetting, ownerFlight] at *
   all_goals tso_finish
 
-set_option maxHeartbeats 1000000 in
+set_option maxHeartbeats 4000000 in
 theorem t_wtl (s s' : St) (p : Pid) : Inv s → s.tpc p = .wtl → stepT s p = some s' → Inv s' := by
   intro h heq hs
   have hb := h.tbufE p (by simp [heq, mayBuf])
@@ -35,7 +35,7 @@ theorem t_wtl (s s' : St) (p : Pid) : Inv s → s.tpc p = .wtl → stepT s p = s
   all_goals simp only [ownerLocked, carry, resetting, ownerFlight] at *
   all_goals tso_finish
 
-set_option maxHeartbeats 1000000 in
+set_option maxHeartbeats 4000000 in
 theorem t_wk1 (s s' : St) (p : Pid) : Inv s → s.tpc p = .wk1 → stepT s p = some s' → Inv s' := by
   intro h heq hs
   have hb := h.tbufE p (by simp [heq, mayBuf])
@@ -45,7 +45,7 @@ theorem t_wk1 (s s' : St) (p : Pid) : Inv s → s.tpc p = .wk1 → stepT s p = s
   simp only [ownerLocked, carry, resetting, ownerFlight] at *
   tso_finish
 
-set_option maxHeartbeats 1000000 in
+set_option maxHeartbeats 4000000 in
 theorem t_wkf (s s' : St) (p : Pid) (b) : Inv s → s.tpc p = .wkf b → stepT s p = some s' → Inv s' := by
   intro h heq hs
   have hcfg := h.cfg
